@@ -4,10 +4,14 @@ import math
 import numpy as np
 from hypothesis import strategies as st
 
-from raysect.core import Point3D, Vector3D, translate, rotate_x, rotate_y, rotate_z
+from raysect.core import Point3D, Vector3D, translate, rotate_x, rotate_y, rotate_z, rotate_basis
+from raysect.core.workflow import SerialEngine
 from raysect.optical import World, Ray
+from raysect.optical.observer import SightLine, VectorCamera, FullFrameSampler1D, FullFrameSampler2D
+from raysect.optical.observer.base import Observer1D
 
 from cherab.tools.raytransfer import RayTransferBox, RayTransferCylinder
+from cherab.tools.raytransfer import RayTransferPipeline0D, RayTransferPipeline1D, RayTransferPipeline2D
 
 from ..core import Given
 from ..findings import is_open
@@ -34,7 +38,15 @@ RULE = ("Case = one ray-transfer object (box: nx,ny,nz in 1..6, cells 0.05..2 m;
         "starts inside, crosses a masked / -1 cell, phi-wraps (crosses the phi = 0 seam of a sector or visits a periodic copy); "
         "distinct by case hash. While the known finding C10-axis-hole-zero-row is open, rays of radius_inner = 0 cylinders that "
         "pass the axis closer than 10 radii of the artificial axis hole (1e-4 dr) are marked excluded_known by the generator "
-        "and the oracle models that hole; once it is fixed the oracle expects no hole at radius_inner = 0.")
+        "and the oracle models that hole; once it is fixed the oracle expects no hole at radius_inner = 0. "
+        "Sub-check pipelines: the same object generators + a pool of 6 generated rays; a RayTransferPipeline0D / 1D / 2D (kind "
+        "power / radiance, sensitivity 1, 0.5, 2.5, pixel_samples 1..3, 0-D samples_per_task 1 or 250) on a SightLine / a minimal "
+        "fixed-ray Observer1D (1..4 pixels) / a VectorCamera of shape (<=3, <=2) or (<=2, <=3); the SAME pipeline object is "
+        "observed three times, with 1-2 changes before the 2nd and 3rd observe() (mask, voxel_map -> other bins, object "
+        "transform, observer rays / pixel count / image shape, pipeline.kind, pixel_samples), then a fresh pipeline as control. "
+        "After every observe() pipeline.matrix must have the observer's shape + (bins,) and equal sensitivity^[power] x the rows "
+        "obtained by Ray.trace of the same ray(s) in the current configuration; the control must equal the thrice-used pipeline. "
+        "Non-trivial there = at least two of the three observations have a non-zero matrix and at least one change altered it.")
 ASSUMPTIONS = ["raysect's Ray.trace / Box / Cylinder / Subtract are trusted: a volume is integrated between the surface hits of the "
                "bounding primitive (or from the ray origin when it lies inside), null surfaces neither count in the ray depth nor "
                "trigger extinction, a ray that passed a surface is re-launched <= 1e-9 m from the hit point",
@@ -43,6 +55,10 @@ ASSUMPTIONS = ["raysect's Ray.trace / Box / Cylinder / Subtract are trusted: a v
                "the integration scheme anchored by the property: per volume segment n = max(2, int(length/step)) midpoint samples, "
                "dt = length/n, segment skipped when length < 0.1 step",
                "standard right-handed rotation matrices for raysect's rotate_x/y/z, translate",
+               "pipelines: observers run with SerialEngine and spectral_rays = 1; every observer used launches pixel_samples "
+               "identical rays per pixel (SightLine: its axis; VectorCamera: no jitter for edge pixels, so only images with "
+               "min(shape) <= 2; 1-D: raysect ships no deterministic Observer1D, a 12-line Python subclass with fixed rays and "
+               "unit projection weights is used), so pipeline.matrix is deterministic and comparable with a direct Ray.trace",
                "generated floats with |v| < 1e-6 are snapped to 0 (raysect's Cylinder.hit misses when the square of a direction "
                "component underflows; see notes/C10-raysect-tangent-inner-cylinder.py)"]
 TOLERANCES = {
@@ -65,6 +81,8 @@ TOLERANCES = {
                  "the upper bounds are demanded (label ray:ambiguous-segmentation); a ray whose origin lies within DELTA of a "
                  "primitive surface is only traced (exceptions count), raysect decides whether it starts inside",
     "merged map": "1e-9 (1 + L): same samples, only the order of the floating-point additions differs",
+    "pipelines": "1e-9 (1 + bounding radius) max(1, sensitivity): the pipeline adds pixel_samples identical spectra and divides by the "
+                 "count; the rays are bit-identical to the directly traced ones",
     "midpoint replica": "entry = dt * (number of midpoint samples in the source) within 1e-9 (1 + L); samples closer to a piece boundary "
                         "than the uncertainty of the segment ends (band widths of the entry/exit surfaces + 3e-8 m) count as possible "
                         "for both sides; skipped when n itself is uncertain (length/step within that uncertainty of an integer)",
@@ -72,7 +90,9 @@ TOLERANCES = {
 REQUIRED_LABELS = ["box:ray:edge", "box:ray:inside", "box:ray:axis", "box:ray:plane", "box:ray:two", "box:nt:masked", "box:nt:edge",
                    "box:map:merge", "box:map:mask", "cyl:ray:tangent", "cyl:ray:halfplane", "cyl:ray:axis", "cyl:ray:edge",
                    "cyl:ray:throughaxis", "cyl:nt:wraps", "cyl:nt:tangent", "cyl:axisymmetric", "cyl:period<360", "cyl:rmin>0",
-                   "cyl:rmin=0", "cyl:map:merge"]
+                   "cyl:rmin=0", "cyl:map:merge", "pipelines:dim:0", "pipelines:dim:1", "pipelines:dim:2", "pipelines:power",
+                   "pipelines:radiance", "pipelines:change:mask", "pipelines:change:map", "pipelines:change:place",
+                   "pipelines:change:view", "pipelines:change:kind", "pipelines:change:samples"]
 
 AXIS_HOLE = "C10-axis-hole-zero-row"     # open: radius_inner = 0 still gets an inner bounding cylinder of radius 1e-5 dr
 
@@ -380,6 +400,10 @@ def _local_ray(case, grid, ray):
 def _trace(ctx, world, bins, M, o, u, wl):
     ow = M @ np.array([o[0], o[1], o[2], 1.0])
     uw = M[:3, :3] @ np.array(u)
+    return _trace_world(ctx, world, bins, ow, uw, wl)
+
+
+def _trace_world(ctx, world, bins, ow, uw, wl):
     with ctx.cut("trace"):
         ray = Ray(origin=Point3D(float(ow[0]), float(ow[1]), float(ow[2])), direction=Vector3D(float(uw[0]), float(uw[1]), float(uw[2])),
                   min_wavelength=wl[0], max_wavelength=wl[0] + wl[1], bins=bins)
@@ -503,8 +527,191 @@ def run(case, ctx):
     ctx.nt(any_nt)
 
 
+# ------------------------------------------------------------------------------------------------ pipelines
+SHAPES2D = [[1, 1], [1, 2], [2, 1], [1, 3], [2, 2], [3, 2], [2, 3]]      # min(shape) <= 2: VectorCamera does not jitter edge pixels
+POOL = 6
+
+
+class _LineObserver(Observer1D):
+    """Smallest deterministic 1-D observer: pixel p launches pixel_samples copies of the fixed ray rays[p]."""
+
+    def __init__(self, rays, sensitivity, pipelines, **kw):
+        self.rays = rays
+        self.sens = sensitivity
+        super().__init__(len(rays), FullFrameSampler1D(), pipelines, **kw)
+
+    def _generate_rays(self, pixel, template, ray_count):
+        o, d = self.rays[pixel]
+        return [(template.copy(o, d), 1.0) for _ in range(ray_count)]
+
+    def _pixel_sensitivity(self, pixel):
+        return self.sens
+
+
+def _view(draw, dim):
+    if dim == 0:
+        shape = []
+    elif dim == 1:
+        shape = [draw(st.integers(1, 4))]
+    else:
+        shape = draw(st.sampled_from(SHAPES2D))
+    npx = int(np.prod(shape)) if shape else 1
+    return {"shape": shape, "idx": [draw(st.integers(0, POOL - 1)) for _ in range(npx)]}
+
+
+@st.composite
+def pipe_case(draw):
+    obj = draw(box_case()) if draw(st.booleans()) else draw(cyl_case())
+    if obj["kind"] == "box":
+        extra = [draw(_box_ray(obj["n"])) for _ in range(POOL - NRAYS)]
+        ncell = obj["n"][0] * obj["n"][1] * obj["n"][2]
+    else:
+        nr, nphi, nz = obj["n"]
+        nsurf = nphi * int(round(360.0 / obj["period"])) if nphi > 1 else 0
+        extra = [draw(_cyl_ray(obj["n"], nsurf)) for _ in range(POOL - NRAYS)]
+        ncell = nr * nphi * nz
+    obj["rays"] = [r for r in obj["rays"] + extra]
+    for r in obj["rays"]:
+        r.pop("excluded_known", None)
+    dim = draw(st.integers(0, 2))
+    stages = [{"view": _view(draw, dim)}]
+    for _ in range(2):
+        st_ = {}
+        for ch in draw(st.lists(st.sampled_from(["vox", "vox", "place", "view", "view", "kind", "samples"]), min_size=1, max_size=2, unique=True)):
+            if ch == "vox":
+                st_["vox"] = _voxels(draw, ncell)
+            elif ch == "place":
+                st_["place"] = _placement(draw)
+            elif ch == "view":
+                st_["view"] = _view(draw, dim)
+            elif ch == "kind":
+                st_["kind"] = draw(st.sampled_from(["power", "radiance"]))
+            else:
+                st_["samples"] = draw(st.integers(1, 3))
+        stages.append(st_)
+    return {"obj": obj, "dim": dim, "kind": draw(st.sampled_from(["power", "radiance", "Power"])),
+            "sens": draw(st.sampled_from([1.0, 0.5, 2.5])), "samples": draw(st.integers(1, 3)),
+            "spt": draw(st.sampled_from([1, 250])), "stages": stages}
+
+
+def _sightline_matrix(ow, uw):
+    fwd = Vector3D(float(uw[0]), float(uw[1]), float(uw[2]))
+    up = Vector3D(1, 0, 0) if abs(fwd.z) > 0.9 else Vector3D(0, 0, 1)
+    return translate(float(ow[0]), float(ow[1]), float(ow[2])) * rotate_basis(fwd, up)
+
+
+def run_pipe(case, ctx):
+    obj, dim = case["obj"], case["dim"]
+    kind = obj["kind"]
+    grid, args, step = _geometry(obj)
+    cls = RayTransferBox if kind == "box" else RayTransferCylinder
+    wl = obj["wl"]
+    vm, mask, vmap = _voxel_arrays(obj, grid.shape)
+    with ctx.cut("construct"):
+        world, rt = _build(cls, args, obj["step"] is not None, step, mask, vmap, obj["via"], obj["place"])
+        pipe = [RayTransferPipeline0D, RayTransferPipeline1D, RayTransferPipeline2D][dim](kind=case["kind"])
+    pkind, samples, sens = case["kind"].lower(), case["samples"], case["sens"]
+    common = dict(spectral_bins=1, min_wavelength=wl[0], max_wavelength=wl[0] + wl[1], pixel_samples=samples, quiet=True)
+    place = obj["place"]
+    obs = None
+    view, view_frame = None, None
+    ctx.label("dim:%d" % dim, kind, pkind)
+    nonzero, prev, differ = 0, None, 0
+    atol = 1e-9 * (1.0 + grid.rb) * max(1.0, sens)
+    for k, stg in enumerate(case["stages"] + [{"control": True}]):
+        # ---- apply the changes of this stage through the public setters
+        with ctx.cut("reconfigure"):
+            if "vox" in stg:
+                o2 = dict(obj, vox=stg["vox"])
+                vm, mask, vmap = _voxel_arrays(o2, grid.shape)
+                if vmap is not None:
+                    rt.voxel_map = vmap
+                else:
+                    rt.mask = mask
+                ctx.label("change:" + ("map" if vmap is not None else "mask"))
+            if "place" in stg:
+                place = stg["place"]
+                rt.transform = _ray_matrix(place)
+                ctx.label("change:place")
+            if "kind" in stg:
+                pipe.kind = stg["kind"]
+                pkind = stg["kind"]
+                ctx.label("change:kind")
+            if "samples" in stg:
+                samples = stg["samples"]
+                ctx.label("change:samples")
+            if "control" in stg:
+                frozen = np.array(pipe.matrix)
+                old = pipe
+                pipe = [RayTransferPipeline0D, RayTransferPipeline1D, RayTransferPipeline2D][dim](kind=pkind)
+        if "view" in stg:
+            view, view_frame = stg["view"], place            # the observer looks along rays defined in the object's current frame
+            if k > 0:
+                ctx.label("change:view")
+        nbins = int(vm.max()) + 1
+        # ---- the world-frame rays of the observer
+        M = CH.rigid(view_frame["t"], view_frame["r"])
+        wrays = []
+        for i in view["idx"]:
+            o, u = _local_ray(obj, grid, obj["rays"][i])
+            wrays.append((M @ np.array([o[0], o[1], o[2], 1.0]), M[:3, :3] @ np.array(u)))
+        with ctx.cut("observe"):
+            if dim == 0:
+                tr = _sightline_matrix(*wrays[0])
+                if obs is None:
+                    obs = SightLine(sensitivity=sens, pipelines=[pipe], parent=world, transform=tr, render_engine=SerialEngine(),
+                                    samples_per_task=case["spt"], **common)
+                obs.transform = tr
+                p0, d0 = Point3D(0, 0, 0).transform(obs.to_root()), Vector3D(0, 0, 1).transform(obs.to_root())
+                wrays = [(np.array([p0.x, p0.y, p0.z]), np.array([d0.x, d0.y, d0.z]))]
+            elif dim == 1:
+                lrays = [(Point3D(*[float(v) for v in ow[:3]]), Vector3D(*[float(v) for v in uw])) for ow, uw in wrays]
+                if obs is None:
+                    obs = _LineObserver(lrays, sens, [pipe], parent=world, render_engine=SerialEngine(), **common)
+                obs.rays = lrays
+                obs.pixels = len(lrays)
+            else:
+                if obs is not None:
+                    obs.parent = None
+                sh = view["shape"]
+                po = np.empty(sh, dtype=object)
+                pd = np.empty(sh, dtype=object)
+                for j, (ow, uw) in enumerate(wrays):
+                    po[j // sh[1], j % sh[1]] = Point3D(*[float(v) for v in ow[:3]])
+                    pd[j // sh[1], j % sh[1]] = Vector3D(*[float(v) for v in uw])
+                obs = VectorCamera(po, pd, frame_sampler=FullFrameSampler2D(), pipelines=[pipe], sensitivity=sens, parent=world)
+                obs.render_engine = SerialEngine()
+                obs.quiet = True
+                obs.min_wavelength, obs.max_wavelength = 1e-3, wl[0] + wl[1]
+                obs.min_wavelength = wl[0]
+            obs.pipelines = [pipe]
+            obs.pixel_samples = samples
+            obs.spectral_bins = rt.bins
+            obs.observe()
+            got = np.array(pipe.matrix, dtype=float)
+        # ---- expectation: the same rays traced directly, in the current configuration
+        rows = np.array([_trace_world(ctx, world, nbins, ow, uw, wl) for ow, uw in wrays])
+        want = rows * (sens if pkind == "power" else 1.0)
+        want = want.reshape(tuple(view["shape"]) + (nbins,))
+        what = "pipeline%dD-%s" % (dim, "control" if "control" in stg else "observe%d" % (k + 1))
+        ctx.check(got.shape == want.shape, what, lambda: "matrix shape %r, expected %r" % (got.shape, want.shape))
+        ctx.close(got, want, what, rtol=0, atol=atol, info="(kind %s, sensitivity %r, pixel_samples %d; matrix row(s) vs. Ray.trace of the "
+                  "same ray(s) in the current configuration)" % (pkind, sens, samples))
+        if "control" in stg:
+            ctx.close(got, frozen, what, rtol=0, atol=atol, info="(fresh pipeline vs. the pipeline used three times)")
+            ctx.check(np.array_equal(np.array(old.matrix), frozen), what, "the detached pipeline's matrix changed while another pipeline was used")
+        else:
+            if float(np.abs(want).max()) > 0:
+                nonzero += 1
+            if prev is not None and (prev.shape != want.shape or not np.allclose(prev, want, rtol=0, atol=atol)):
+                differ += 1
+            prev = want
+    ctx.nt(nonzero >= 2 and differ >= 1)
+
+
 SHARDS = {"quick": 8, "thorough": 16}
 SUBCHECKS = {
-    "box": Given(box_case, run, quick=1200, thorough=30000),
-    "cyl": Given(cyl_case, run, quick=1800, thorough=45000),
+    "box": Given(box_case, run, quick=800, thorough=30000),
+    "cyl": Given(cyl_case, run, quick=1200, thorough=45000),
+    "pipelines": Given(pipe_case, run_pipe, quick=320, thorough=8000),
 }
